@@ -1,14 +1,15 @@
 PROP = {
     "level": "fault_enumeration",
-    "stages": [("faults", "c02", False, ())],
+    "stages": [("faults", "c02", False, ()), ("app", "c02app", False, ())],
     "assumptions": [
         "faults are injected by a Conn/Stream decorator on the sender's end of a real loopback QUIC connection at exact byte offsets; the harness closes a side's connection exactly when the real application would (when its transfer function returns)",
         "byte positions come from recording runs of small workloads; data-stream positions depend on which worker took which chunk, unreached positions are counted and carry no verdict",
-        "hangs are decided by the bounded-progress rule (watchdog, no stream byte for half the window, canary)",
+        "hangs are decided by the bounded-progress rule (watchdog, no stream byte for half the window, canary) and must show again on fresh connections",
+        "stage app: the real app.RunSnapshotReceiver runs in a child process against a signaling server and a sending peer played by the harness (the repository's own sender, right join code, one fault on the wire: payload / checksum bit flip, connection aborted or closed inside a payload or between chunks); judged are the PROCESS's end (bounded progress: still running 40 s after the last byte moved, twice) and its exit status against its tree; the sender application and the CLI wrappers are not driven with faults",
     ],
 }
 META = {
     "technique": "runtime fault injection at enumerated stream byte offsets (Conn decorator) + hook gates forcing racing error paths; state-comparison oracles (tree digest, FileDone records)",
-    "text": "Fault enumeration: for recorded small workloads every byte position of every stream in both directions is hit with graceful/abrupt close by either side and context cancel of either side, data-stream bytes get single-bit flips, plus silent loss samples, source shrink/removal and obstructed output paths; racing configurations are repeated under hook gates. After each fault: a side that returns nil must be right (receiver tree identical and complete; sender saw FileDone ok for every file), and both sides must return within the bounded-progress window.",
+    "text": "Fault enumeration: for recorded small workloads every byte position of every stream in both directions is hit with graceful/abrupt close by either side and context cancel of either side, data-stream bytes get single-bit flips, plus silent loss samples, source shrink/removal and obstructed output paths; racing configurations are repeated under hook gates. After each fault: a side that returns nil must be right (receiver tree identical and complete; sender saw FileDone ok for every file), and both sides must return within the bounded-progress window. A second stage runs the real receiver APPLICATION in a child process against a faulty sending peer: its process must stop, and must not exit 0 with a wrong tree.",
     "note": "Trusted: decorator byte accounting, loopback QUIC semantics of CloseWithError, the digest. Power-loss style faults and mid-packet corruption below QUIC are out of reach.",
 }
